@@ -584,6 +584,18 @@ def r6(ctx):
             iroots = deep_roots(prog, scan, idxs[0].args[1], (TRANSPARENT | {"next", "into_iter", "iter"}) - {"get"})
             ok2 = ok2 and any(o.kind == "call" and o.ref is gets[0] for o in iroots)
         ctx.ob("R6", "CombinedScan::scan/rule by table index", ok2, "the matcher run is self.rules[idx].matcher with idx read from the table entry of that kind", where=scan.loc())
+        # every node and every rule indexed under its kind is tried: the two loops end only when their iterator is exhausted
+        # (an early `break`/`return` after the first match would silently drop the other rules' matches on that node)
+        from .c13 import loop_of
+        nexts = [c for c in scan.calls if c.name == "next" and "Iterator" in (c.callee.get("trait") or "") and scan.in_loop(c.bb)]
+        for c in nexts:
+            body = loop_of(scan, c.bb)
+            arms = option_arms(scan, c)
+            normal = set(arms["none"])
+            early = sorted({s2 for b in body for s2 in scan.succ[b] if s2 not in body and s2 not in normal})
+            what = "nodes (dfs)" if "Pre" in c.best or "traversal" in c.best else ("rule indices of the node's kind" if "slice::iter::Iter" in c.best else c.best.split("<")[1][:40] if "<" in c.best else c.best)
+            ctx.ob("R6", "CombinedScan::scan/loop over %s runs to exhaustion#%d" % (what, nexts.index(c)), not early,
+                   "the loop is left only when its iterator returns None" if not early else "the loop can be left early (edge to bb%s): candidates or rules after the exit point are never tried" % early, where=scan.loc(c.line))
         # the None arm of the table lookup only skips (continue): never returns / breaks
         if gets:
             arms = option_arms(scan, gets[0])
